@@ -73,6 +73,8 @@ DIMS = [
     ("slice_pops", [None, 0, 1, 3]),
     ("perf", ["off", "frontier1", "visited1", "dedupe1"]),
     ("world", ["one", "two"]),
+    # a relation muted with multiplier exactly 0 (accepted by the validator): nothing spreads along its edges
+    ("mult", ["default", "supports0"]),
 ]
 PERF_THOROUGH_EXTRA = ["frontier2", "visited2", "dedupe2"]
 
@@ -321,7 +323,9 @@ def params(dev: dict) -> dict:
         "dedupe": int(perf[-1]) if perf.startswith("dedupe") else 0,
         "perf": perf,
         "world": g("world", "one"),
+        "mult": g("mult", "default"),
     }
+    P["edge_mult"] = dict(EDGE_MULT, supports=0.0) if P["mult"] == "supports0" else dict(EDGE_MULT)
     L = min(P["iter_cap"], P["layers"])
     if P["slice_iters"] is not None:
         L = min(L, P["slice_iters"])
@@ -339,7 +343,7 @@ def make_ctx(dev: dict, cache: bool = False):
     decay = {"mode": "exp_floor", "rate": 0.6, "floor": 0.05} if P["decay"] == "exp" else {"mode": "attn_quad", "alpha": 0.8}
     cfg.t1 = {
         "decay": decay,
-        "edge_type_mult": dict(EDGE_MULT),
+        "edge_type_mult": dict(P["edge_mult"]),
         "iter_cap": P["iter_cap"],
         "iter_cap_layers": P["layers"],
         "node_budget": P["node_budget"],
@@ -520,7 +524,7 @@ def ref_one_graph(nodes, edges, text, P):
             if d > L:
                 R["layer_cap_hits"] += 1
                 continue
-            c = w * float(wt) * EDGE_MULT.get(rel, UNKNOWN_MULT) * decay_of(P["decay"], d)
+            c = w * float(wt) * P["edge_mult"].get(rel, UNKNOWN_MULT) * decay_of(P["decay"], d)
             if abs(abs(c) - EPS) < 1e-15:
                 R["fragile"] = True
             if abs(c) < EPS:
